@@ -269,7 +269,7 @@ def KwOnly (ps : List Param) (as : List (Option String × β)) : Prop :=
 /-- a valid Python call for the signature `ps`: positional arguments bind the leading parameters, then keywords
     for distinct remaining parameters -/
 def ValidCall : List Param → List (Option String × β) → Prop
-  | p :: ps, (none, v) :: as => ValidCall ps as
+  | _ :: ps, (none, _) :: as => ValidCall ps as
   | ps, as => KwOnly ps as
 
 theorem emit_false_kwOnly (fields : String → Option β) (ps : List Param) (hd : Distinct ps)
